@@ -230,8 +230,10 @@ def parseEntRef (s : String) : Option (String × String) :=
   | [n, e] => if e = "" then none else some (n, e)
   | _ => none
 
-/-- values for system fields (`id`, `room_id`, …) are outside the op language: `bad-op` -/
+/-- values for system fields (`id`, `room_id`, …) and the same field twice are outside the op language: `bad-op` -/
 def parseVals (s : String) : Option (List (String × DKind × String)) :=
+  let names := (splitList s ";").map fun t => (t.splitOn ":").headD ""
+  if !noDup names then none else
   (splitList s ";").mapM fun t =>
     match t.splitOn ":" with
     | [f, "i", v] => if systemFields.any (·.1 == f) then none else some (f, DKind.int, v)
